@@ -328,12 +328,68 @@ class Sim:
         require(dict(b.vars) == {nm: k for k, nm in enumerate(rest)}, 'undeclare_vars#post:compacted-order',
                 lambda: f'{before} minus {want_rm} -> {b.vars}')
 
-    OPS = dict(var=op_var, build=op_build, apply=op_apply, ite=op_ite, quant=op_quant, let=op_let, expr=op_expr,
+    def op_fork(self):
+        """copy.copy(manager): work in the copy must not leak into the original"""
+        self.log.append(('copy.copy + work in the copy',))
+        fork_and_discard(self.b, self.declared(), self.rnd) if len(self.declared()) >= 1 else None
+
+    def op_copy_out(self):
+        """copy a held function into a second manager (different order, dynamic reordering on with a small threshold)
+        and back: both copies must denote the same function; neither manager may be disturbed"""
+        f, t = self.pick()
+        names = self.declared()
+        o = names[:]
+        self.rnd.shuffle(o)
+        self.log.append(('copy to second manager and back', self.node(f), o))
+        if self.mode == 'autoref':
+            other = self.A.BDD({nm: k for k, nm in enumerate(o)})
+            other.configure(reordering=True)
+            other._bdd._last_len = self.rnd.choice([1, 2, 4])
+            g = self.m.copy(f, other) if self.rnd.random() < .5 else self.A.copy_bdd(f, other)
+            require(den(other._bdd, g.node, self.universe) == t, 'copy#post:same-function-by-name', lambda: f'{self.node(f)}')
+            require(other.configure()['reordering'] is True, 'copy#post:reordering-setting-kept', '')
+            back = other.copy(g, self.m)
+            wf(other._bdd)
+            del g
+            self.keep(back, t)
+        else:
+            other = self.B.BDD({nm: k for k, nm in enumerate(o)})
+            other.configure(reordering=True)
+            other._last_len = self.rnd.choice([1, 2, 4])
+            g = self.b.copy(f, other)
+            other.incref(g)
+            require(den(other, g, self.universe) == t, 'copy#post:same-function-by-name', lambda: f'{f}')
+            require(other.configure()['reordering'] is True, 'copy#post:reordering-setting-kept', '')
+            back = other.copy(g, self.b)
+            wf(other)
+            other.decref(g)
+            self.keep(back, t)
+
+    def op_image(self):
+        """relational product through dd.bdd.image with a (possibly non-adjacent) rename pair"""
+        names = self.declared()
+        if len(names) < 3 or not self.held:
+            return
+        (f, t), (g, s_) = self.pick(), self.pick()
+        x, xp = self.rnd.sample(names, 2)
+        jx, jxp = self.universe.index(x), self.universe.index(xp)
+        # precondition of image: the rename target x is quantified
+        self.log.append(('image', self.node(f), self.node(g), {xp: x}, {x}))
+        conj = t & s_
+        q = tt_exists(conj, [jx], self.n)
+        want = tt_subst(q, {jxp: vmask(jx, self.n)}, self.n)
+        if self.mode == 'autoref':
+            r = self.A.image(f, g, {xp: x}, {x})
+        else:
+            r = self.B.image(f, g, {xp: x}, {x}, self.b)
+        self.keep(r, want)
+
+    OPS = dict(fork=op_fork, copyout=op_copy_out, image=op_image, var=op_var, build=op_build, apply=op_apply, ite=op_ite, quant=op_quant, let=op_let, expr=op_expr,
                succ=op_succ, copyh=op_copyh, drop=op_drop, gc=op_gc, gcroots=op_gc_roots, swap=op_swap,
                sift=op_sift, order=op_order, pairs=op_pairs, declare=op_declare, undeclare=op_undeclare)
 
     def step(self, op):
-        needs_held = op in ('apply', 'ite', 'quant', 'let', 'succ', 'copyh')
+        needs_held = op in ('apply', 'ite', 'quant', 'let', 'succ', 'copyh', 'copyout', 'image')
         if needs_held and not self.held:
             op = 'var'
         if op in ('var', 'build', 'expr', 'let', 'quant') and not self.declared():
